@@ -8,9 +8,10 @@ PROPS["C10"] = {
     "groups": [
         {"dir": "crypto/merkle",
          "quick": ["VP_C10_SoundPath_n2", "VP_C10_SoundPath_n3", "VP_C10_Sound_n1", "VP_C10_Sound_n2", "VP_C10_Sound_n3", "VP_C10_Sound_n4", "VP_C10_Sound_n5",
-                   "VP_C10_Genuine_n1", "VP_C10_Genuine_n2", "VP_C10_Genuine_n3", "VP_C10_Genuine_n4"],
+                   "VP_C10_Genuine_n1", "VP_C10_Genuine_n2", "VP_C10_Genuine_n3", "VP_C10_Genuine_n4",
+                   "VP_C10_SoundSymTotal_n2", "VP_C10_SoundSymTotal_n3"],
          "thorough": ["VP_C10_Sound_n6", "VP_C10_Sound_n7", "VP_C10_Sound_n8", "VP_C10_Genuine_n5",
-                      "VP_C10_SoundSymTotal_n2", "VP_C10_SoundSymTotal_n3", "VP_C10_Sound2_n3"]},
+                      "VP_C10_Sound2_n3"]},
         {"dir": "types",
          "quick": ["VP_C10_AddPartSym_L2_s1", "VP_C10_AddPartSym_L3_s2", "VP_C10_AddPartSym_L3_s1", "VP_C10_AddPartTamper_L2_s1", "VP_C10_AddPartTamper_L3_s1",
                    "VP_C10_AddPartTamper_L4_s2", "VP_C10_Complete_L3_s1", "VP_C10_Complete_L5_s2", "VP_C10_Complete_L6_s4"],
@@ -32,11 +33,12 @@ PROPS["C07"] = {
     "files": ["types/validator_set.go", "types/block.go", "types/vote.go", "types/canonical.go", "libs/math/fraction.go"],
     "groups": [
         {"dir": "types",
-         "quick": ["VP_C07_DecodedSetTotal", "VP_C07_NilVotesCommitNothing", "VP_C07_Verify_n1", "VP_C07_Verify_n2", "VP_C07_Verify_n2_extra", "VP_C07_Trusting_n1_m1", "VP_C07_Trusting_n2_m1",
+         "quick": ["VP_C07_DecodedSetTotal", "VP_C07_BlockIDEquality", "VP_C07_NilVotesCommitNothing", "VP_C07_Verify_n1", "VP_C07_Verify_n2", "VP_C07_Verify_n2_extra", "VP_C07_Trusting_n1_m1", "VP_C07_Trusting_n2_m1",
                    "VP_C07_TrustLevelGuards", "VP_C07_SignBytesInjective_small", "VP_C07_Repeat_n2_m2", "VP_C07_Repeat_n3_m2"],
          "thorough": ["VP_C07_Verify_n3", "VP_C07_Repeat_n4_m3", "VP_C07_Trusting_n2_m2", "VP_C07_Trusting_n3_m2"]},
     ],
     "bounds": {
+        "block-id comparison": "BlockID.Equals (the only link between the block id the caller asks about and the one the signatures cover) on two ids whose hash and part-set hash are absent or 32 fully symbolic bytes and whose part count is a symbolic value below 2^14: equal exactly when every field is",
         "validators": "n = 1..2 (thorough 3) validators with fully symbolic 64-bit powers (1 <= p, sum <= MaxTotalVotingPower, so totals near 2^60 are inside); real ed25519 keys",
         "commit slots": "per slot: symbolic flag in {absent, commit, nil}; signature = genuine over the exact canonical precommit | genuine by another validator's key | junk | (one designated slot) genuine over a message differing in exactly one bound field: chain id, height, round, block hash, part-set header, vote type, timestamp, nil-vs-block",
         "arguments": "height / block id argument equal to or different from the commit's; commit one slot longer than the set",
@@ -74,7 +76,7 @@ PROPS["C08"] = {
 }
 
 PROPS["C01"] = {
-    "files": ["types/vote_set.go", "types/vote.go", "types/validator_set.go"],
+    "files": ["types/vote_set.go", "types/vote.go", "types/validator_set.go", "state/validation.go"],
     "groups": [
         {"dir": "types",
          "quick": ["VP_C01_VoteSet_n2_k3", "VP_C01_VoteSet_n3_k2", "VP_C01_VoteSet_n2_k2_pv", "VP_C01_VoteSet_n2_k2_full", "VP_C01_VoteSet_n2_k5_conflict"],
@@ -82,9 +84,13 @@ PROPS["C01"] = {
         {"dir": "consensus",
          "quick": ["VP_C02_Step_R1_vote_lockfocus", "VP_C02_Step_R2_vote_lockfocus_top", "VP_C02_Step_R1_part_lockfocus"],
          "thorough": ["VP_C02_Step_R1_part", "VP_C02_Step_R1_vote_locked"]},
+        {"dir": "state",
+         "quick": ["VP_C06_ValidateLastCommit"],
+         "thorough": []},
     ],
     "bounds": {
         "commit rule and local voting rules (H2/H3)": "the inductive step of the real consensus.State (see C02): at every BlockStore.SaveBlock the saved block is the one with +2/3 precommits in the commit round, passed validation, its parts match the commit header, the seen commit is for it; ApplyBlock only after SaveBlock; nothing saved without deciding; lock rules L1-L5",
+        "full validation of the last commit": "real state.validateBlock on block 2 of a 3-validator chain (powers 12, 11, 10) whose last commit has, per validator, a genuine for-block precommit, a genuine nil precommit, an absent slot, or a for-block / nil slot with a signature that does not verify (5^3 combinations, concrete): accepted exactly when every present signature verifies and the for-block power alone exceeds two thirds",
         "vote set (H1)": "n = 2..3 validators, symbolic powers (total <= 2^16; one configuration up to MaxTotalVotingPower), histories of k = 2..3 (thorough 4) operations from: a well-formed genuinely signed vote of validator i for block A/B/nil, a junk-signature vote, a vote malformed in exactly one respect (height, round, type, index out of range / negative / other validator's index, empty address) but genuinely signed as such, SetPeerMaj23 by one of two peers for A/B/nil; one entry with k = 5 over the alphabet {validator 0 votes A, validator 0 votes B, a peer claims a majority} (equivocation and re-delivery); quorum facts asserted after every operation; MakeCommit checked with the real VerifyCommit",
     },
     "stubs": ["ed25519 = ideal signature oracle (natively real)", "H2/H3: the stubs of the consensus step harness (see C02)"],
@@ -94,16 +100,17 @@ PROPS["C01"] = {
 }
 
 PROPS["C04"] = {
-    "files": ["privval/file.go", "libs/tempfile/tempfile.go"],
+    "files": ["privval/file.go", "libs/tempfile/tempfile.go", "consensus/wal.go"],
     "groups": [
         {"dir": "privval",
          "quick": ["VP_C04_Signer_k2", "VP_C04_Signer_k2_symts", "VP_C04_Signer_k2_crash1", "VP_C04_Signer_k2_ioerr"],
          "thorough": ["VP_C04_Signer_k3", "VP_C04_Signer_k2_crash1_symts", "VP_C04_Signer_k2_crash2"]},
         {"dir": "consensus",
-         "quick": ["VP_C02_Step_R1_timeout_lockfocus"],
-         "thorough": ["VP_C02_Step_R1_timeout"]},
+         "quick": ["VP_C02_Step_R1_timeout_lockfocus", "VP_C15_WAL_k3", "VP_C15_WAL_k3_crash1"],
+         "thorough": ["VP_C02_Step_R1_timeout", "VP_C15_WAL_k4"]},
     ],
     "bounds": {
+        "the unfinished height is found again after a restart (H3)": "the WAL history harness of C15: k = 3 (thorough 4) operations from {write, synced write, end-of-height marker, rotation of the head, clean stop + restart, flush} with 0 or 1 crash at any file operation; afterwards every durably written end-height marker is found by the real SearchForEndHeight (so catch-up replay restores the node's own messages of the unfinished height), in whichever file of the group it sits",
         "signer (H1)": "real FilePV on the modelled file system; k = 2 (thorough 3, without crashes) arbitrary requests: prevote / precommit / proposal, height 1, round 0..1, block A/B/nil, two timestamps (or a symbolic timestamp travelling through the real sign-bytes codec), optional restart (LoadFilePV) after every request",
         "WAL before signing (H2)": "the consensus step harness (see C02) hands every input to a recording WAL unsynced, as the receive routine does; inside the signer, at every SignVote / SignProposal the WAL must have been flushed and synced (entries: timeouts; the proposer re-proposing its valid block is among them)",
         "write errors": "one write of the sign-state file fails with an error at any point (nothing reaches the file); the signer must not release a signature it could not record (it may die: the harness then restarts it from disk)",
@@ -122,13 +129,14 @@ PROPS["C15"] = {
                    "VP_C15_WAL_k3", "VP_C15_WAL_k3_crash1", "VP_C15_Repair_1", "VP_C15_Repair_2", "VP_C15_CatchupAtInitialHeight"],
          "thorough": ["VP_C15_Codec_k3", "VP_C15_Codec_k2_flip", "VP_C15_Arbitrary_L12", "VP_C15_WAL_k4", "VP_C15_WAL_k4_crash1"]},
         {"dir": "libs/autofile",
-         "quick": ["VP_C15_Limits_k4"],
+         "quick": ["VP_C15_Limits_k4", "VP_C15_ReopenAtIndex"],
          "thorough": ["VP_C15_Limits_k5"]},
     ],
     "bounds": {
         "codec": "k = 2 (thorough 3) messages (EndHeight / timeoutInfo from a fixed alphabet) framed by the real encoder, stream cut at a symbolic byte offset; one symbolic byte overwritten at a symbolic offset (k = 1, thorough 2); arbitrary buffers of L = 0,3,8,10 (thorough 12) fully symbolic bytes with the length field < 16",
         "repair over lifetimes": "1 and 2 process lifetimes that each append two synced records and die leaving 1, 5 or 9 bytes of a torn record at the end of the WAL; every restart runs the real State.OnStart (catch-up, backup, repairWalFile, reload); afterwards a reader returns every synced record of every lifetime in order",
         "catch-up at the first height": "a chain with initial height 1, 2 or 10 that crashed in its first height with one logged timeout: the real catchupReplay replays it",
+        "rotation + reopen at any index width": "a group directory whose rotated files start at index 0, 8, 98, 997..1000, 9998 or 99998 (the decimal-width boundaries of the %03d suffix; concrete, one path each) is opened by the real OpenGroup, read, written, rotated and reopened: indices recomputed from the directory, every record read back once in order",
         "size limits": "real autofile.Group on the modelled file system with head-size limit 200..600 and total-size limit 300..900 bytes; k = 4 (thorough 5) operations from {synced write of a 100/300/700-byte record, checkHeadSizeLimit, checkTotalSizeLimit}; a later reader must get a suffix that starts at a file boundary and contains everything written since the last rotation",
         "wal": "real BaseWAL + autofile.Group on the modelled file system; histories of k = 3 (thorough 4) operations from {Write, WriteSync, end-of-height (synced), RotateFile, Stop+Start, FlushAndSync}; one simulated crash at any file operation (torn write prefixes, surviving prefix of the unsynced tail chosen at reboot), then reopen with the repair sequence of State.OnStart (backup, repairWalFile, reopen); audit with a fresh group reader and SearchForEndHeight for every height",
     },
@@ -141,7 +149,7 @@ PROPS["C12"] = {
     "files": ["mempool/v0/clist_mempool.go", "mempool/v1/mempool.go", "mempool/cache.go", "libs/clist/clist.go"],
     "groups": [
         {"dir": "mempool/v0",
-         "quick": ["VP_C12_V0_k3_sync", "VP_C12_V0_k3_smallcache", "VP_C12_V0_k3_async", "VP_C12_V0_k3_async_size1", "VP_C12_V0_Reap_n2", "VP_C12_V0_Reap_n3"],
+         "quick": ["VP_C12_V0_k3_sync", "VP_C12_V0_k3_smallcache", "VP_C12_V0_k3_async", "VP_C12_V0_k3_async_size1", "VP_C12_V0_Reap_n2", "VP_C12_V0_Reap_n3", "VP_C12_V0_ReapSizes"],
          "thorough": ["VP_C12_V0_k4_sync", "VP_C12_V0_k4_async", "VP_C12_V0_k4_smallcache", "VP_C12_V0_k3_3tx"]},
         {"dir": "mempool/v1",
          "quick": ["VP_C12_V1_k3", "VP_C12_V1_k3_smallcache", "VP_C12_V1_k2_reap", "VP_C12_V1_Concurrent", "VP_C12_V1_ReapOrder"],
@@ -156,6 +164,7 @@ PROPS["C12"] = {
         "reap order (v1)": "13..16 transactions with priorities from {3,5,7,9} arriving one millisecond apart: ReapMaxTxs(-1) and ReapMaxBytesMaxGas(-1,-1) return them by priority, then arrival",
         "concurrent submissions (v1)": "three goroutines submit A, B and A again (two orders) to the v1 mempool with a cache of one transaction while the application's answers are held back and then released one by one",
         "update lock": "the commit-time discipline the cache/pool consistency relies on (C05's quiescence entries): real BlockExecutor.Commit with the v0 mempool on a queued connection and one concurrent CheckTx with up to 3 preemptions",
+        "reaping at length-prefix boundaries (v0)": "three transactions with lengths from {1,127,128,200,255,256,16383,16384}, ReapMaxBytesMaxGas with a symbolic byte limit in [-1, 2^17]: the encoded size of the result (tag + uvarint(len) + payload, computed by the harness) is within the limit and the prefix is maximal",
         "reaping": "pool of 2..3 admitted transactions, ReapMaxTxs(max) for max in [-1,3], ReapMaxBytesMaxGas with symbolic limits in [-1,16]: prefix of the order, within the limits, maximal",
     },
     "stubs": ["mempool ABCI connection = harness object answering in request order (sync like the local client, or queued like the socket client)", "sha256 concrete (transaction keys)"],
@@ -167,11 +176,12 @@ PROPS["C11"] = {
     "files": ["evidence/pool.go", "evidence/verify.go", "types/evidence.go"],
     "groups": [
         {"dir": "evidence",
-         "quick": ["VP_C11_DuplicateVote", "VP_C11_ExpiryNeedsBothLimits", "VP_C11_Lifecycle_k3", "VP_C11_Lifecycle_k2_lca"],
+         "quick": ["VP_C11_DuplicateVote", "VP_C11_LightClientAttack", "VP_C11_ExpiryNeedsBothLimits", "VP_C11_Lifecycle_k3", "VP_C11_Lifecycle_k2_lca"],
          "thorough": ["VP_C11_Lifecycle_k4", "VP_C11_Lifecycle_k3_lca"]},
     ],
     "bounds": {
         "verification": "Pool.verify on duplicate-vote evidence built from really signed votes against a 2-validator chain: each bound field genuine or perturbed (height, round, type, same block, vote by another validator, vote signed by a stranger in the validator's name, evidence power / total (symbolic), evidence time), evidence height 5..9 under state height 10, MaxAgeNumBlocks 2..4, MaxAgeDuration 2/4 minutes: accepted exactly when genuine and not expired by both limits",
+        "light-client-attack verification": "Pool.verify on really signed equivocation evidence in which both validators are culprits: genuine, or perturbed in one respect (a culprit listed twice with the other left out, either way; non-canonical order; truncated / extended list; a stranger listed; a symbolic wrong listed power; a symbolic wrong total power; timestamp shifted): accepted exactly when genuine",
         "lifecycle": "real Pool on the real MemDB with harness state/block stores; k = 3 (thorough 4) operations from {AddEvidence, CheckEvidence of a symbolic sub-list (optionally with a repeated item), Update with a symbolic subset committed, ReportConflictingVotes, restart (NewPool on the same DB)} over 2 duplicate-vote items (+ one genuine light-client-attack item, k = 2, thorough 3)",
     },
     "stubs": ["state store / block store = harness objects serving a concrete 2-validator chain", "ed25519 and sha256 concrete (real)"],
@@ -180,11 +190,14 @@ PROPS["C11"] = {
 }
 
 PROPS["C19"] = {
-    "files": ["libs/pubsub/pubsub.go", "libs/pubsub/subscription.go", "state/txindex/kv/kv.go", "state/txindex/indexer_service.go", "state/indexer/block/kv/kv.go"],
+    "files": ["libs/pubsub/pubsub.go", "libs/pubsub/subscription.go", "libs/pubsub/query/query.go", "state/txindex/kv/kv.go", "state/txindex/indexer_service.go", "state/indexer/block/kv/kv.go"],
     "groups": [
         {"dir": "libs/pubsub",
          "quick": ["VP_C19_Pubsub_n2_k2", "VP_C19_Pubsub_n2_k3", "VP_C19_Pubsub_n2_k3_shared", "VP_C19_Pubsub_n2_k4_shared"],
          "thorough": ["VP_C19_Pubsub_n3_k2", "VP_C19_Pubsub_n3_k3_shared"]},
+        {"dir": "libs/pubsub/query",
+         "quick": ["VP_C19_QueryTimeOperands"],
+         "thorough": []},
         {"dir": "state/indexer/block/kv",
          "quick": ["VP_C19_BlockSearch"],
          "thorough": []},
@@ -194,6 +207,7 @@ PROPS["C19"] = {
     ],
     "bounds": {
         "delivery (H1)": "real pubsub.Server (its loop goroutine scheduled by the engine), n = 2 (thorough 3) subscribers with own or shared queries, buffered with capacity 1, each fast (drains after every publication) or slow (never reads); k = 2..3 (thorough 4) operations from {publish, unsubscribe}; each query's verdict on each publication symbolic in {no match, match, error}; every map-iteration order of the subscription tables",
+        "time operands of a subscriber's query": "real query.New + Query.Matches (reflect.Value modelled as a box around the operand): operand TIME 2013-05-03T14:45:05Z under each of =, <, <=, >, >=; the event value has a symbolic seconds digit and is written in Z, +00:00, +02:00 or -02:30 form; the verdict must be the comparison of instants",
         "block search (H2b)": "real block indexer (state/indexer/block/kv) on a MemDB: three blocks with a begin-block attribute in {A,B} and an end-block attribute from {2,9,10,100}; five query shapes combining a (possibly empty) range, an equality and a height bound, real parser; reference computed from the values",
         "indexer service (H3)": "real txindex.IndexerService on a real EventBus and kv.TxIndex: two blocks of 0..2 transactions published as the node does; indexing of a block's own events fails or not (arbitrary per block); every committed transaction must be retrievable under its height and position",
         "transaction search (H2)": "real kv.TxIndex on a MemDB: 3 (thorough 4) transactions at heights 1..2 carrying account.number drawn from {1,2,9,10,15,100} (different digit counts), indexed by the real Index; one query of 5 shapes (closed range, upper bound only, open range, equality, height AND upper bound) with bounds from {2,10,15,50}, parsed by the real query parser; the reference answer is computed from the values; concrete values, every combination enumerated by the engine",
@@ -231,11 +245,12 @@ PROPS["C06"] = {
     "files": ["state/validation.go", "state/state.go", "types/block.go", "types/time/time.go"],
     "groups": [
         {"dir": "state",
-         "quick": ["VP_C06_Validate", "VP_C06_ValidateInitial", "VP_C06_Transition"],
+         "quick": ["VP_C06_Validate", "VP_C06_ValidateInitial", "VP_C06_Transition", "VP_C06_ValidateLastCommit"],
          "thorough": []},
     ],
     "bounds": {
         "transition (H2)": "blocks 2..4 of a 3-validator chain built by State.MakeBlock with genuine commits and applied by the real updateState; the application answers block 2 with one of {no change, power change, removal, newcomer, removal+newcomer in either order}, an optional block-size parameter change and symbolic result codes; each block must validate against the state it extends; each transition is computed twice under arbitrary map orders and must give byte-identical states",
+        "last commit (H1)": "block 2 whose last commit has, per validator, a genuine for-block precommit, a genuine nil precommit, an absent slot, or a for-block / nil slot with a signature that does not verify (5^3 combinations, concrete): accepted exactly when every present signature verifies and the for-block power alone exceeds two thirds",
         "validation (H1/H2)": "a 3-validator chain (powers 10,11,12) after block 1; block 2 built by the real State.MakeBlock from a commit whose three precommit timestamps are symbolic whole seconds in [-2,+5] around block 1's time; then exactly one header/content field replaced (version app/block, chain id, height, last block id, app / consensus / results / validators / next-validators hash, proposer, data hash, data content via the wire format, time shifted by a symbolic -3..+3 s, last commit reduced below two thirds) or none; accepted exactly when untouched and the weighted median (independent counting reference) is later than block 1's time; the first block at initial height 1..3: time = genesis time, empty last commit",
     },
     "stubs": ["ed25519 ideal for the symbolic-timestamp sign bytes (natively real)", "sha256 concrete except where timestamps are symbolic"],
@@ -254,7 +269,7 @@ PROPS["C09"] = {
     "bounds": {
         "lagging witness (H3b)": "the real compareNewHeaderWithWitness against a witness without the target height whose latest blocks (heights 3, then 4 after the wait) carry times at arbitrary offsets -3..3 s from the primary header's time: conflict exactly when one of them is not before it",
         "forward with a faulty primary (H4)": "real Client.VerifyLightBlockAtHeight in skipping mode from trusted height 1 to height 3 across a complete validator-set replacement (pivot 2 needed); the primary's first three answers each genuine / forged (well-formed, signed by a made-up set) / future-dated / no response; two honest witnesses; what is returned and what enters the trusted store must be the genuine blocks",
-        "verifier (H1)": "light.Verify on really signed headers of a 3-validator chain: trusted header at height 2, new header adjacent or two heights later, its time one of {before, equal, +1 s, +50 s} relative to the trusted one, `now` symbolic over 600 s, trusting period 100/300 s, clock drift 0/10 s, new validator set equal to / sharing 2 / sharing 1 member with the trusted set, one perturbation (chain id, validators hash, exactly-2/3 commit, 1/3 commit, height not later) or none: accepted exactly when the rule of the statement holds",
+        "verifier (H1)": "light.Verify on really signed headers of a 3-validator chain: trusted header at height 2, new header adjacent or two heights later, its time one of {before, equal, +1 s, +50 s} relative to the trusted one, `now` symbolic over 600 s, trusting period 100/300 s, clock drift 0/10 s, new validator set equal to / sharing 2 / sharing 1 member with the trusted set, one perturbation (chain id, validators hash, exactly-2/3 commit, 1/3 commit, height not later, two of three validators genuinely precommitting nil, two for the block plus one nil precommit) or none: accepted exactly when the rule of the statement holds",
         "adversarial trusting step": "trusted set of m = 4/7 equal validators, forged light block whose validator list is any n = 3 (thorough 4) entries from the trusted members or strangers (repetitions included), all genuinely signing: accepted only with more than 1/3 of *distinct* trusted members",
         "detector (H3)": "detectDivergence with w = 1..3 witnesses, each answering {identical block, a different block it cannot back, no response, not found, malformed}, under every goroutine schedule: confirmation only with an identical header; no goroutine left blocked",
         "backwards (H2)": "client trusting height 3 asked for height 1 (sequential backwards verification), primary answering any of its first 4 requests with a forged self-signed block: whatever is stored at height 1 is the header linked by hash to the trusted one",
@@ -276,7 +291,7 @@ PROPS["C20"] = {
     ],
     "bounds": {
         "full-node side": "the real rpc/core Tx handler over a real kv transaction index and a block of three transactions drawn from two values (duplicates possible): the served proof validates against the data hash, proves the returned bytes and sits at the returned index",
-        "verifying client": "a concrete 3-block chain (2, 3, 0 transactions) whose header hashes are the genuine functions of the content (data hash by the real Txs.Hash, LastResultsHash by the real state.ABCIResponsesResultsHash of the previous block's DeliverTx results); light client = the C09 contract (returns the verified light block of a height); backend honest or falsifying one thing: block body under the verified header (via the wire format), a self-consistent other block, a DeliverTx result code, the returned transaction bytes, a valid proof of another transaction, the index, the proof's own data; heights 1..2, both transactions; every proof the full-node side builds (Txs.Proof) validates against the data hash",
+        "verifying client": "a concrete 3-block chain (2, 3, 0 transactions) whose header hashes are the genuine functions of the content (data hash by the real Txs.Hash, LastResultsHash by the real state.ABCIResponsesResultsHash of the previous block's DeliverTx results); light client = the C09 contract (returns the verified light block of a height); backend honest or falsifying one thing: block body under the verified header (via the wire format), a self-consistent other block, a DeliverTx result's code / data / gas used / gas wanted (symbolic wrong value), results withheld, repeated or reordered, the returned transaction bytes, a valid proof of another transaction, the index, the proof's own data; heights 1..2, both transactions; every proof the full-node side builds (Txs.Proof) validates against the data hash",
     },
     "stubs": ["rpcclient.Client backend and LightClient = harness objects", "sha256 concrete"],
     "outside": ["ABCIQueryWithOptions / proof runtime (IAVL-style ops)", "ConsensusParams, BlockchainInfo, websocket subscriptions", "symbolic transaction bytes (concrete here)"],
@@ -296,7 +311,7 @@ PROPS["C13"] = {
     "bounds": {
         "who may fill a request (H2, part)": "the real BlockPool.AddBlock / bpRequester.setBlock on a requester that is unassigned, assigned to p1, or already filled, with a block sent by p1, by another known peer or by a stranger: taken only as the assigned peer's first answer, every other sender reported",
         "hand-over (H3)": "0, 1 or 2 blocks stored (block store with seen commits, state store) through the real commit pipeline of a 1-validator chain; then a consensus State built from the start-up state and the real Reactor.SwitchToConsensus (service start stubbed): no panic, next height, last commit rebuilt with +2/3",
-        "acceptance step (H1)": "the real BlockchainReactor.poolRoutine (its goroutines and tickers scheduled by the engine on virtual time) with two blocks already received from two peers; 4 validators of power 10, a different validator set from height 2 on; `first` canonical or another well-formed block; second.LastCommit for the canonical block or for `first`, each of its 4 slots one of {genuine, junk signature, absent, genuine signature under another validator's address}; real block store (MemDB) and real ValidateBlock; after the step: what was saved, executed, which peers were dropped, and whether types.CommitToVoteSet on the stored seen commit (what consensus does when it takes over) succeeds",
+        "acceptance step (H1)": "the real BlockchainReactor.poolRoutine (its goroutines and tickers scheduled by the engine on virtual time) with two blocks already received from two peers; 4 validators of power 10, a different validator set from height 2 on; `first` canonical or another well-formed block; second.LastCommit for the canonical block or for `first`, each of its 4 slots one of {genuine, junk signature, absent, genuine signature under another validator's address, a genuine precommit for nil}; real block store (MemDB) and real ValidateBlock; after the step: what was saved, executed, which peers were dropped, and whether types.CommitToVoteSet on the stored seen commit (what consensus does when it takes over) succeeds",
     },
     "stubs": ["p2p.Switch methods (Peers, StopPeerForError, Reactor, NumPeers) and BlockExecutor.ApplyBlock replaced by recorders (engine-level function interception): counterexamples are replayed in the interpreter", "requester goroutines emulated (a redo clears the requester's block)", "ed25519/sha256 concrete (real)"],
     "outside": ["v1/v2 reactors", "pool bookkeeping (AddBlock / peer ranges / timeouts): H2 is not built", "reaching the tip over several blocks"],
@@ -326,7 +341,7 @@ PROPS["C16"] = {
 }
 
 PROPS["C17"] = {
-    "files": ["p2p/conn/connection.go", "consensus/state.go", "consensus/msgs.go"],
+    "files": ["p2p/conn/connection.go", "consensus/state.go", "consensus/msgs.go", "blockchain/v0/pool.go"],
     "groups": [
         {"dir": "p2p/conn",
          "quick": ["VP_C17_Deliver_2x9", "VP_C17_HostilePackets_2"],
@@ -337,8 +352,12 @@ PROPS["C17"] = {
         {"dir": "statesync",
          "quick": ["VP_C17_StateSyncHostileMessage"],
          "thorough": []},
+        {"dir": "blockchain/v0",
+         "quick": ["VP_C13_AddBlock"],
+         "thorough": []},
     ],
     "bounds": {
+        "block sync pool (H2, partly)": "real BlockPool.AddBlock / bpRequester.setBlock with the requester of a height unassigned, assigned to p1, or already filled, and a block sent by the assigned peer, another known peer or a stranger: only the asked peer's first answer is taken; every other sender is reported and nobody else is",
         "delivery (H1)": "real MConnection pair over an in-memory link, packet payload size 4: the real send side (Channel queues, sendPacketMsg channel selection by priority/recently-sent ratio, nextPacketMsg, protoio framing, flush) called step by step, the real receive routine running as a goroutine under the engine scheduler; 2 channels of different priority; 2 (thorough 3) messages of arbitrary bytes, each of any length 0..9 on either channel, with 0-2 packets sent between two sends",
         "hostile packets (H1b)": "2 (thorough 3) packets written to the real receive routine: PacketMsg with arbitrary int32 channel id, arbitrary EOF flag, arbitrary data of length {0,4,7} against a message capacity of 6; ping; pong; empty Packet",
         "state sync reactor (H2, partly)": "an invalid ChunkResponse / SnapshotsResponse through the real statesync Reactor.ReceiveEnvelope concurrently with Reactor.Sync (which takes the reactor's lock for writing), the switch's StopPeerForError calling back into RemovePeer; up to 3 pre-emptions at lock operations; RWMutex modelled with Go's writer precedence; both activities must finish",
@@ -361,7 +380,7 @@ PROPS["C05"] = {
          "thorough": ["VP_C05_Pipeline_n2_crash2", "VP_C05_Pipeline_n3_crash2"]},
     ],
     "bounds": {
-        "commit pipeline and recovery (H1/H2)": "1-validator chain of 2-3 blocks (0-2 transactions each; in the n3 crash entries the application changes the validator's power and the block size limit at height 1) committed by the real State.finalizeCommit (real block store, state store, BlockExecutor, local ABCI client) on a recording application that keeps height and hash across crashes; 1 (thorough 2) crashes at any database write (single write or atomic batch) or application call, also during recovery; every restart runs the real state load + Handshaker.Handshake + NewState",
+        "commit pipeline and recovery (H1/H2)": "1-validator chain of 2-3 blocks (0-2 transactions each; in the n3 crash entries the application changes the validator's power and the block size limit at height 1) committed by the real State.finalizeCommit (after every boot the state must carry the validator and parameter updates the application returned for block 1, whether the block was applied normally or re-applied by the handshake; real block store, state store, BlockExecutor, local ABCI client) on a recording application that keeps height and hash across crashes; 1 (thorough 2) crashes at any database write (single write or atomic batch) or application call, also during recovery; every restart runs the real state load + Handshaker.Handshake + NewState",
         "mempool quiescence (H3)": "real BlockExecutor.Commit with the real v0 mempool on an asynchronous mempool connection (answers arrive only when flushed or delivered): 0-2 transactions of arbitrary bytes submitted before the commit, each answered or still in flight; the block contains the first one or not; one further CheckTx running concurrently with up to 3 preemptions at synchronisation points; the same race against the v1 (priority) mempool with an empty block",
     },
     "stubs": ["pubsub publishing stubbed", "nil WAL (the #ENDHEIGHT marker and WAL catch-up are C15's subject)", "crash = abandon execution at the crash point, keep database contents and the application's committed height/hash"],
@@ -385,14 +404,14 @@ PROPS["C02"] = {
          "quick": ["VP_C04_Signer_k2"],
          "thorough": ["VP_C04_Signer_k3"]},
         {"dir": "consensus",
-         "quick": ["VP_C02_Base", "VP_C02_Step_R1_vote_lockfocus", "VP_C02_Step_R1_vote_polproposal", "VP_C02_Step_R2_vote_lockfocus_top", "VP_C02_Step_R1_timeout_lockfocus", "VP_C02_Step_R1_part_lockfocus", "VP_C02_Step_R1_txs"],
+         "quick": ["VP_C02_Base", "VP_C02_Step_R1_vote_lockfocus", "VP_C02_Step_R1_vote_polproposal", "VP_C02_Step_R2_vote_lockfocus_top", "VP_C02_Step_R1_timeout_lockfocus", "VP_C02_Step_R2_timeout_lockedvsproposal", "VP_C02_Step_R1_part_lockfocus", "VP_C02_Step_R1_txs"],
          "thorough": ["VP_C02_Step_R1_vote_locked", "VP_C02_Step_R1_vote_unlocked", "VP_C02_Step_R1_timeout", "VP_C02_Step_R1_proposal", "VP_C02_Step_R1_part", "VP_C02_Step_R2_vote_lockfocus"]},
     ],
     "bounds": {
         "inductive step of the real consensus.State": "one arbitrary event (vote of any type/round/block; timeout; proposal; block part; txs-available) applied by the real handleMsg/handleTimeout/handleTxsAvailable to a state whose Round (0..R), Step (all 8), LockedRound, ValidRound, CommitRound, TriggeredTimeoutPrecommit, vote-set summary for rounds 0..R+1 and signing ghost are symbolic and constrained only by the invariant INV; INV is asserted again afterwards and on the NewState state (base), so every reachable state of a height is covered for rounds <= R; R=1 (thorough: also R=2 for votes); obligations L1-L5 asserted inside the signer at every signature",
         "signer": "the last line of defence named by the property's anchors, FilePV's height/round/step regression check: C04's signer entry (k arbitrary requests with restarts) is run here too",
         "vote-set contract": "the quorum facts the step harness assumes about TwoThirdsMajority / HasTwoThirdsAny are those C01's vote-set entries decide on the real types.VoteSet with symbolic powers (two of them are run here too)",
-        "slices": "quick entries cover the pre-state slice 'locked on A, valid block A, proposal block none/A, no proposal message, votes of the current height for nil/A/B' for votes (R=1, and R=2 with the node in round 2; plus the slice 'not locked, complete proposal block A with a proposal message of any POL round'), timeouts and parts, and every shape for txs-available; thorough entries cover every shape for timeouts, proposals and parts, both vote slices at R=1 ('locked on A, valid A/B, proposal block none/A/B' and 'not locked, any valid block, proposal block none/A/B/C'; together every shape, for votes of the current height for nil/A/B), and the lock-focus slice at R=2 for every round",
+        "slices": "quick entries cover the pre-state slice 'locked on A, valid block A, proposal block none/A, no proposal message, votes of the current height for nil/A/B' for votes (R=1, and R=2 with the node in round 2; plus the slice 'not locked, complete proposal block A with a proposal message of any POL round'), timeouts and parts, the slice 'locked on A and holding a complete proposal for another block B with a proposal message of any POL round' for timeouts at R=2, and every shape for txs-available; thorough entries cover every shape for timeouts, proposals and parts, both vote slices at R=1 ('locked on A, valid A/B, proposal block none/A/B' and 'not locked, any valid block, proposal block none/A/B/C'; together every shape, for votes of the current height for nil/A/B), and the lock-focus slice at R=2 for every round",
     },
     "stubs": _STEP_STUBS,
     "outside": _STEP_OUT + ["votes of the previous / next height and votes for our own proposal block C in the vote slices (covered only by the unsliced entry VP_C02_Step_R1_vote, > 250k paths, not registered)"],
@@ -400,13 +419,17 @@ PROPS["C02"] = {
 }
 
 PROPS["C03"] = {
-    "files": ["consensus/state.go", "config/config.go", "types/validator_set.go"],
+    "files": ["consensus/state.go", "config/config.go", "types/validator_set.go", "consensus/types/height_vote_set.go"],
     "groups": [
         {"dir": "consensus",
          "quick": ["VP_C03_TimeoutsGrow", "VP_C03_RotationFair", "VP_C03_CommitWaitsForBlock", "VP_C02_Step_R2_vote_lockfocus_top"],
          "thorough": ["VP_C02_Step_R1_vote_locked", "VP_C02_Step_R1_timeout", "VP_C02_Step_R1_proposal"]},
+        {"dir": "consensus/types",
+         "quick": ["VP_C03_ClaimedMajorityAdmitsConflictingVote"],
+         "thorough": []},
     ],
     "bounds": {
+        "T5b a lagging node can complete a decision that rests on an equivocator's vote": "real HeightVoteSet, 4 validators, node in round 0..3, a prevote or precommit round r <= the node's round: the node saw the equivocator's other vote (nil or block A) first; the conflicting vote for B is refused, a peer's +2/3 claim for B in round r is taken, the vote is then admitted and two more votes complete the majority (concrete, 40 combinations)",
         "T1 timeouts grow": "config.ConsensusConfig.Propose/Prevote/Precommit for every round in [0, 65536), default configuration and configurations with arbitrary deltas in [1 ms, 10 s]",
         "T2 rotation": "3 validators with powers in 1..3 each, starting 0..3 rounds into the rotation: over (total power) rounds each proposes exactly (power) times",
         "T6 precommit-wait flag": "invariant of the step harness: TriggeredTimeoutPrecommit is set only for the round whose precommit-wait timeout was scheduled (otherwise the node would wait in that round's precommit step for ever)",
@@ -426,7 +449,7 @@ PROPS["C14"] = {
          "thorough": ["VP_C14_Sync_b4"]},
     ],
     "bounds": {
-        "state provider (H2)": "the real lightClientStateProvider (AppHash, State) on a real light.Client over a genuinely signed 7-block chain whose validator set changes at an arbitrary height 2..7, snapshot height 2..4; consensus parameters served by a stubbed RPC client and checked by the real light/rpc client: the state's three validator sets, app hash and results hash are those of the verified headers",
+        "state provider (H2)": "the real lightClientStateProvider (AppHash, State) on a real light.Client over a genuinely signed 7-block chain whose validator set changes at an arbitrary height 2..7, snapshot height 2..4; consensus parameters served by a stubbed RPC client and checked by the real light/rpc client: the state's three validator sets, app hash and results hash are those of the verified headers; then the real state store is bootstrapped from that state (as node.startStateSync does) and must serve exactly the verified validator sets of H, H+1, H+2 and the verified parameters",
         "restore (H1)": "the real syncer.SyncAny with its fetcher goroutine, snapshot pool and chunk queue (chunk files on the modelled file system, timers on the virtual clock) against a recording application and three peers; advertised sets: {S1 from two peers + S2 from one}, {a snapshot for a height the light client cannot verify + S1}, {a higher snapshot + S1 + S2}; up to 3 (thorough 4) adversarial actions per run drawn from: OfferSnapshot verdict reject / reject-format / reject-sender / abort; ApplySnapshotChunk verdict retry / retry-snapshot / reject-snapshot / abort / refetch+retry / reject-sender+refetch+retry; the restored application reporting a wrong hash, height or version; a peer staying silent, an outsider's chunk arriving first, a wrong-index chunk, a duplicate with other bytes; the peer asked is an arbitrary one of the snapshot's peers",
     },
     "stubs": ["StateProvider (the light client, C09's subject) replaced by a table of verified heights", "p2p peers and ABCI connections are harness objects", "math/rand.Intn = arbitrary choice"],
